@@ -18,18 +18,32 @@ RULE = ('component patterns: strings over a weighted alphabet of letters, glob m
         'trailing slash and type f/d/*; paths: 0..5 components over a small name pool so that matches are frequent; '
         'trees: random real directory trees under /var/tmp (depth <= 4, symlinked dirs, hidden and backup names, names '
         'with metacharacters and spaces); filters: 1..3 includes x extra x exclude x filter_fn x type; '
+        'near-prefix families: trees holding a directory X, sub-directories of X (two levels), siblings X<c>.. and X/sub<c>.. '
+        'for characters <c> on both sides of the separator (- . space + ! # , $ & quote parentheses % tab newline | 0 2 _ a ~ = @ ; '
+        'non-ASCII), unrelated directories, optionally below a parent with its own near-prefix sibling, and lists of 2..4 '
+        'include patterns whose bases are drawn from the family (a base, something below it, a name-continuing sibling; '
+        'random subsets; repeated bases, the tree root, missing directories), in shuffled order; '
         'exhaustive sweep: all patterns of <= 4 (quick: 3) components over {a,b,*,**,a*,?} x all paths of depth <= 4 '
         'over {a,b,ab} x file/dir.  A case is non-trivial when the pattern has a glob component and the path '
         'is non-empty; distinct by (pattern, type, path).')
 TRUSTED = ('brute-force Python reading of the documented glob rules (spec_match in harness/c11.py) used as the direct oracle',
+           'brute-force choice of the walk roots (spec_bases in harness/c11.py: bases without a proper ancestor among the bases, '
+           'ordered by root and component list) used as the direct oracle for FileFilter.bases()',
            'Python fnmatch.fnmatchcase as the reference for one component',
-           'path normalisation (Path.__init__/append/split) is taken from the implementation (owned by C12)')
+           'path normalisation (Path.__init__/append/split) is taken from the implementation (owned by C12); the model of '
+           'FileFilter.bases() uses the path-algebra model of C12 (PathAlg.mk, PathAlg.uniquetrees) and is tied to the real '
+           'bases() on every generated filter; that uniquetrees returns an antichain is a hypothesis of '
+           'C11_walk_roots_no_duplicates (path algebra), checked on every generated filter by the roots oracle')
 EXPLANATION = ('Model: coq/theories/Find/{Glob,Filter,Walk}.v mirror glob.py (fnmatch.translate incl. bracket expressions, '
                '_compile_glob, _match_base, _match_glob_run(s) with the greedy offset loop, match, NameGlob) and builtins/find.py '
                '(FindResult, FileFilter._match_globs/match/__eq__, _find_files with in-place pruning over path.walk, find_from_filter '
-               'with FindCache and dist registration; cache-hit branch switchable, fixed = repo commit 491a34f). Stages: W:fnmatch, '
+               'with FindCache and dist registration; cache-hit branch switchable, fixed = repo commit 491a34f); Find/Bases.v models '
+               'FileFilter.bases() = path.uniquetrees of the PathGlob bases through Path/PathAlg.v, and the W:find / W:session '
+               'ties let the model choose the walk roots. Stages: W:fnmatch, '
                'W:pathglob, W:nameglob, W:find (real temp trees), W:session (real BuildContext), W:sweep (exhaustive); oracles: '
                'brute-force documented rules for match and for find (unpruned walk + match), never-soundness on the implementation, '
+               'FileFilter.bases() is a minimal covering antichain of the pattern bases, _find_files / find() / find_from_filter '
+               'return exactly the brute-force selection walked from the brute-force roots (as lists: no entry twice), '
                'found entries exist, dist contains found and extra, cache does not change results; name probe for entry names that '
                'Path.append rewrites (known findings).')
 
@@ -404,6 +418,92 @@ def gen_filter_spec(rng, fstree, rep=None):
     return {'include': incs, 'type': t, 'extra': extra, 'exclude': exclude, 'fn': fn}
 
 
+# ---- near-prefix families of pattern bases (the walk roots are chosen from the bases by path.uniquetrees)
+# characters that sort before the separator '/' (0x2f) and may stand in a literal base component, and some after it
+BEFORE_SEP = ['-', '.', ' ', '+', '!', '#', ',', '$', '&', "'", '(', ')', '%', '"', '\t', '\n']
+AFTER_SEP = ['0', '2', '_', 'a', '~', '=', '@', ';', 'é', '{']
+FAMILY_TAILS = ['*.c', '*.c', '*', '**/*.c', '**', '*/*.c', '*.h', '**/*', '*/', '**/', '?.c', '[ab].c']
+
+
+def family_shape(all_bases):
+    """some base B, a base strictly below B and a base continuing B's last component with a character sorting
+    before the separator are all present (the shape where component order and string order of paths differ)"""
+    bs = set(all_bases)
+    for r, b in bs:
+        if not b:
+            continue
+        if any(r2 == r and len(c) > len(b) and c[:len(b)] == b for r2, c in bs) and \
+           any(r2 == r and len(c) >= len(b) and c[:len(b) - 1] == b[:-1] and c[len(b) - 1].startswith(b[-1]) and
+               len(c[len(b) - 1]) > len(b[-1]) and c[len(b) - 1][len(b[-1])] < '/' for r2, c in bs):
+            return True
+    return False
+
+
+def gen_family_job(rng, rep=None, nspecs=8):
+    """A tree with a near-prefix family of directories - X, sub-directories of X (two levels), siblings X<c>... for
+    characters <c> on both sides of the separator, the same one level further down (X/sub<c>...), unrelated
+    directories, optionally everything below a parent (with its own near-prefix sibling) - every directory with
+    matching files, and lists of 2..4 include patterns whose bases are drawn from the family.
+    -> {'fsys': model-shape trees, 'specs': [filter spec]}"""
+    X = rng.choice(['src', 'a', 'lib', 'x', 'ab', 'a.c'])
+    parent = rng.choice([(), (), (), ('p',), ('p', 'q')])
+    before = rng.sample(BEFORE_SEP, 3)
+    after = rng.sample(AFTER_SEP, 2)
+    sibs = [X + c + rng.choice(['gen', 'old', 'x', '']) for c in before[:2] + after[:1]]
+    sub = rng.choice(['sub', 's', 'b'])
+    subsibs = [sub + before[2] + rng.choice(['2', '']), sub + after[1]]
+    dirs = [parent + (X,), parent + (X, sub), parent + (X, sub, 'deep'), parent + (X, 'other')]
+    dirs += [parent + (n,) for n in sibs] + [parent + (sibs[0], sub), parent + (sibs[-1], sub)]
+    dirs += [parent + (X, n) for n in subsibs]
+    dirs += [('other',), ('other', sub)]
+    if parent:
+        dirs += [(parent[0] + rng.choice(BEFORE_SEP) + 'x',), (parent[0] + rng.choice(BEFORE_SEP) + 'x', X)]
+    dirs = list(dict.fromkeys(dirs))
+
+    def tree_of(dirset, depth=()):
+        names = sorted(set(d[len(depth)] for d in dirset if len(d) > len(depth) and d[:len(depth)] == depth))
+        out = [[1, n, False, tree_of(dirset, depth + (n,))] for n in names]
+        if depth:
+            out += [[0, f] for f in rng.sample(['a.c', 'b.c', 'x.h', 'a.h', 'c.c'], rng.randint(2, 4)) if f not in names]
+        rng.shuffle(out)
+        return out
+    bdirs = [(X,), (X, sub), (sibs[0],)]
+    fsys = [[1, tree_of(dirs)], [2, tree_of(bdirs)]]
+    specs = []
+    for _ in range(nspecs):
+        r = rng.random()
+        if r < 0.6:      # a base, something below it, a sibling continuing its name; optionally one more
+            b = rng.choice([parent + (X,), parent + (X,), parent + (X, sub)] +
+                           [d for d in dirs if any(len(e) > len(d) and e[:len(d)] == d for e in dirs)])
+            below = rng.choice([e for e in dirs if len(e) > len(b) and e[:len(b)] == b])
+            near = [e for e in dirs if len(e) >= len(b) and e[:len(b) - 1] == b[:-1] and e[len(b) - 1] != b[-1] and
+                    e[len(b) - 1].startswith(b[-1])]
+            early = [e for e in near if e[len(b) - 1][len(b[-1])] < '/']
+            if early and rng.random() < 0.75:
+                near = early
+            chosen = [b, below] + ([rng.choice(near)] if near else []) + ([rng.choice(dirs)] if rng.random() < 0.4 else [])
+        elif r < 0.8:
+            chosen = rng.sample(dirs, rng.randint(2, 4))
+        else:            # the same base twice, the root of the tree, a directory that does not exist
+            chosen = rng.sample(dirs, 2)
+            chosen.append(rng.choice([chosen[0], (), parent + ('missing',), chosen[1] + ('nope',)]))
+        rng.shuffle(chosen)
+        incs = []
+        for i, d in enumerate(chosen[:4]):
+            root = 'builddir' if (d in bdirs and rng.random() < 0.12) else 'srcdir'
+            incs.append(('/'.join(d + (rng.choice(FAMILY_TAILS),)), root))
+        t = rng.choice([None, None, None, None, '*', 'f', 'd'])
+        if t == 'f':
+            incs = [(s.rstrip('/'), r) for s, r in incs]
+        spec = {'include': incs, 'type': t, 'extra': rng.choice([[], [], [], ['*.h'], [sub + '/']]),
+                'exclude': rng.choice([[], DEFAULT_EXCLUDE, DEFAULT_EXCLUDE, DEFAULT_EXCLUDE + [sub], ['other']]),
+                'fn': None if rng.random() < 0.85 else {'id': rng.randint(1, 3), 'seed': rng.randint(0, 10 ** 6), 'p': 0.1}}
+        if rep is not None:
+            rep.count('family:includes=%d' % len(incs))
+        specs.append(spec)
+    return {'fsys': fsys, 'specs': specs}
+
+
 def all_entries(fstree, root_val, prefix=()):
     """every (root, comps) below a root"""
     for t in fstree:
@@ -463,11 +563,58 @@ def canon_path(p):
     return (p.root.value, tuple(p.split()), bool(p.directory))
 
 
+def spec_bases(spec):
+    """The walk roots by the documented reading, written directly (no path.uniquetrees, no PathGlob): the base of
+    a pattern is its literal prefix (the components before the first one with a glob character); the roots are
+    the bases that have no other base as a proper ancestor, each once, ordered by (root, component list).
+    -> [(root value, component tuple)]"""
+    from bfg9000.path import Path, Root
+    keys = set()
+    for s, r in spec['include']:
+        gp = Path.ensure(s, Root[r])
+        bits = gp.split()
+        k = next(i for i, b in enumerate(bits) if is_glob(b))
+        keys.add((gp.root.value, tuple(bits[:k])))
+
+    def covered(k):
+        return any(o != k and o[0] == k[0] and k[1][:len(o[1])] == o[1] for o in keys)
+    return sorted(k for k in keys if not covered(k)), sorted(keys)
+
+
+def roots_defects(got, want, allb):
+    """what is wrong with the list of walk roots [(root, comps)] (empty = a minimal covering antichain of the bases)"""
+    out = []
+
+    def anc(a, b):     # a is b or an ancestor of b
+        return a[0] == b[0] and b[1][:len(a[1])] == a[1]
+    if len(set(got)) != len(got):
+        out.append('a root is listed twice')
+    if any(i != j and anc(a, b) for i, a in enumerate(got) for j, b in enumerate(got) if a != b):
+        out.append('a root lies inside the tree of another root')
+    if any(g not in allb for g in got):
+        out.append('a root is not the base of any pattern')
+    if any(not any(anc(g, b) for g in got) for b in allb):
+        out.append('the base of a pattern is not covered by any root')
+    if not out and got != want:
+        out.append('the roots are not in (root, component list) order')
+    return out
+
+
+def dups(keys):
+    seen, out = set(), []
+    for k in keys:
+        if k in seen and k not in out:
+            out.append(k)
+        seen.add(k)
+    return out
+
+
 def spec_selected(spec, tab, fsys, bases):
     """The documented rules, written directly over the scanned tree (no never-pruning, no glob.py):
-    order of an unpruned walk from every base; an entry is found iff some include selects it, no exclude
-    name-pattern selects it or a directory between the base and it, and the filter function says include
-    (and did not say exclude_recursive for a directory between the base and it)."""
+    order of an unpruned walk from every base (given as (root value, components), see spec_bases); an entry is
+    found iff some include selects it, no exclude name-pattern selects it or a directory between the base and it,
+    and the filter function says include (and did not say exclude_recursive for a directory between the base and
+    it)."""
     from bfg9000.path import Path, Root
     inc = []
     for s, r in spec['include']:
@@ -510,12 +657,12 @@ def spec_selected(spec, tab, fsys, bases):
                 visit(rootv, comps + [c[1]], c[3])
 
     fsd = dict(fsys)
-    for b in bases:
-        if own(b.root.value, b.split(), True):
-            found.append(canon_path(b))
-    for b in bases:
-        ch = fsd.get(b.root.value)
-        bits = b.split()
+    for rootv, bits in bases:
+        if own(rootv, list(bits), True):
+            found.append((rootv, tuple(bits), True))
+    for rootv, bits in bases:
+        ch = fsd.get(rootv)
+        bits = list(bits)
         for i, c in enumerate(bits):
             nxt = None
             for t in (ch or []):
@@ -528,7 +675,7 @@ def spec_selected(spec, tab, fsys, bases):
             if ch is None:
                 break
         if ch is not None:
-            visit(b.root.value, bits, ch)
+            visit(rootv, bits, ch)
     return found
 
 
@@ -588,13 +735,28 @@ class Scene:
         shutil.rmtree(self.root, ignore_errors=True)
 
 
+class Capped:
+    """forwards at most [cap] failing inputs of one stage to the report (each one writes a replay file holding the tree)"""
+
+    def __init__(self, rep, cap=12):
+        self.rep, self.cap, self.n = rep, cap, 0
+
+    def fail(self, *args, **kw):
+        self.n += 1
+        if self.n <= self.cap:
+            return self.rep.fail(*args, **kw)
+        self.rep.count('failing-inputs-not-reported-individually')
+        return True
+
+
 def stage_walk(rep, rng, ntrees, nfilters, recorded=()):
     """FileFilter.match and _find_files on real trees against the model (policy 0), the model's pruning
     policies against each other, and the implementation against the documented rules (direct oracle)."""
-    from bfg9000.builtins.find import _find_files
+    from bfg9000.builtins.find import _find_files, find
     from bfg9000.path import Path, Root
     calls, impl, meta = [], [], []
     failures = 0
+    cap = Capped(rep)
     for job in list(recorded) + [None] * ntrees:
         sc = Scene(rng, rep, fsys=job['fsys'] if job else None)
         try:
@@ -604,7 +766,7 @@ def stage_walk(rep, rng, ntrees, nfilters, recorded=()):
                 tab = fn_table(spec['fn'], sc.fsys)
                 ff, mspec = build_filter(spec, tab)
                 if ff is None:
-                    calls.append(('find.walk', [mspec, sc.mfsys, [], 0]))
+                    calls.append(('find.find', [mspec, sc.mfsys, 0]))
                     impl.append(None)
                     meta.append(None)
                     rep.count('walk:ctor-error')
@@ -615,12 +777,15 @@ def stage_walk(rep, rng, ntrees, nfilters, recorded=()):
                     ents = list(_find_files(sc.env, ff, seen))
                 except Exception as e:
                     failures += 1
-                    rep.fail('_find_files raised %s: %s (filter %r)' % (type(e).__name__, e, spec),
+                    cap.fail('_find_files raised %s: %s (filter %r)' % (type(e).__name__, e, spec),
                              {'kind': 'find', 'spec': spec, 'fsys': sc.fsys, 'raised': repr(e)}, classes=())
                     continue
                 got = ([(canon_path(p), m.name) for p, m in ents], [canon_path(p) for p in seen])
-                mstarts = [enc_path(b) for b in bases]
-                calls.append(('find.walk', [mspec, sc.mfsys, mstarts, 0]))
+                # the model chooses the walk roots itself (Find/Bases.v: Path constructor + uniquetrees of PathAlg.v)
+                calls.append(('find.bases', [mspec]))
+                impl.append([canon_path(b) for b in bases])
+                meta.append('bases')
+                calls.append(('find.find', [mspec, sc.mfsys, 0]))
                 impl.append(got)
                 meta.append(None)
                 found = [k for k, m in got[0] if m == 'include']
@@ -629,21 +794,53 @@ def stage_walk(rep, rng, ntrees, nfilters, recorded=()):
                 rep.count('walk:pruned=%d' % min(sum(1 for k, m in got[0] if k[2] and m == 'exclude_recursive'), 3))
                 for k, m in got[0]:
                     rep.count('fres:' + m)
-                # direct oracle: the documented rules over the unpruned tree
-                want = spec_selected(spec, tab, sc.fsys, bases)
+                # direct oracle 1: FileFilter.bases() is a minimal covering antichain of the pattern bases
+                want_roots, all_bases = spec_bases(spec)
+                got_roots = [(b.root.value, tuple(b.split())) for b in bases]
+                rep.count('roots:patterns=%d,bases=%d,roots=%d' % (len(spec['include']), len(all_bases), len(want_roots)))
+                if family_shape(all_bases):
+                    rep.count('roots:near-prefix-family')
+                rd = roots_defects(got_roots, want_roots, all_bases)
+                if rd:
+                    failures += 1
+                    cap.fail('FileFilter.bases() of %r is %r, the minimal covering roots of the pattern bases are %r: %s' % (
+                        [i[0] for i in spec['include']], got_roots, want_roots, '; '.join(rd)),
+                        {'kind': 'find', 'what': 'bases', 'spec': spec, 'fsys': sc.fsys, 'bases': got_roots,
+                         'want': want_roots}, classes=())
+                # direct oracle 2: the documented rules over the unpruned tree, walked from the minimal roots;
+                # equal as lists, hence every selected entry exactly once
+                want = spec_selected(spec, tab, sc.fsys, want_roots)
                 if want != found:
                     failures += 1
-                    rep.fail('_find_files found %r, the documented rules select %r (filter %r)' % (found[:6], want[:6], spec),
-                             {'kind': 'find', 'spec': spec, 'fsys': sc.fsys, 'found': found, 'want': want}, classes=())
+                    twice = dups(found)
+                    cap.fail('_find_files found %r, the documented rules select %r%s (filter %r)' % (
+                        found[:6], want[:6], '; returned more than once: %r' % (twice[:4],) if twice else '', spec),
+                        {'kind': 'find', 'spec': spec, 'fsys': sc.fsys, 'found': found, 'want': want,
+                         'returned_twice': twice}, classes=())
+                # direct oracle 3: the public entry point find() (no filter function there)
+                if spec['fn'] is None:
+                    try:
+                        pub = [canon_path(p) for p in find(sc.env, [Path.ensure(s, Root[r]) for s, r in spec['include']],
+                                                           spec['type'], spec['extra'], spec['exclude'])]
+                    except Exception as e:
+                        pub = 'raised %s: %s' % (type(e).__name__, e)
+                    if pub != want and want == found:
+                        failures += 1
+                        twice = dups(pub) if isinstance(pub, list) else []
+                        cap.fail('find(%r) returned %r, the documented rules select %r%s' % (
+                            [i[0] for i in spec['include']], pub[:6], want[:6],
+                            '; returned more than once: %r' % (twice[:4],) if twice else ''),
+                            {'kind': 'find', 'what': 'find()', 'spec': spec, 'fsys': sc.fsys, 'found': pub, 'want': want,
+                             'returned_twice': twice}, classes=())
                 # every found entry exists (a base that matches itself is covered by the literal-prefix guard)
                 for k in found:
                     full = os.path.join(sc.root, 'src' if k[0] == 1 else 'build', *k[1])
                     if not os.path.lexists(full) and not any(canon_path(b) == k for b in bases):
                         failures += 1
-                        rep.fail('_find_files returned %r which does not exist' % (k,),
+                        cap.fail('_find_files returned %r which does not exist' % (k,),
                                  {'kind': 'find-exists', 'spec': spec, 'fsys': sc.fsys, 'entry': k}, classes=())
                 # the model's documented-exclusions-only policy must find the same (theorem, re-checked on data)
-                calls.append(('find.walk', [mspec, sc.mfsys, mstarts, 1]))
+                calls.append(('find.find', [mspec, sc.mfsys, 1]))
                 impl.append(found)
                 meta.append('found-only')
                 # FileFilter.match on entries of the tree, as file and as directory
@@ -663,6 +860,10 @@ def stage_walk(rep, rng, ntrees, nfilters, recorded=()):
         v = d_opt(lambda x: x, r)
         if v is None:
             return None
+        if meta[i] == 'bases':
+            return d_opt(lambda l: [dec_path(p) for p in l], v)
+        if not v:
+            return None      # a base could not be constructed
         ents = [(dec_path(e[0]), FRES[e[1]]) for e in v[0]]
         if meta[i] == 'found-only':
             return [k for k, m in ents if m == 'include']
@@ -684,6 +885,7 @@ def stage_session(rep, rng, ntrees, ncalls, recorded=()):
     binit()
     calls, impl = [], []
     failures = 0
+    cap = Capped(rep)
     for job in list(recorded) + [None] * ntrees:
         sc = Scene(rng, fsys=job['fsys'] if job else None)
         try:
@@ -717,12 +919,22 @@ def stage_session(rep, rng, ntrees, ncalls, recorded=()):
                     res = find_from_filter(context, ff, dist=dist, cache=cache)
                 except Exception as e:
                     failures += 1
-                    rep.fail('find_from_filter raised %s: %s (filter %r)' % (type(e).__name__, e, spec),
+                    cap.fail('find_from_filter raised %s: %s (filter %r)' % (type(e).__name__, e, spec),
                              {'kind': 'find', 'spec': spec, 'fsys': sc.fsys, 'raised': repr(e)}, classes=())
                     break
-                mcalls.append([mspec, [enc_path(b) for b in ff.bases()], dist, cache])
+                mcalls.append([mspec, [], dist, cache])      # no start paths: the model chooses the roots
                 results.append([canon_path(f.path) for f in res])
                 rep.case('session:%r:%s:%s:%s' % (spec, dist, cache, hit), True)
+                # direct oracle on the implementation: exactly the documented selection, every entry once
+                want = spec_selected(spec, tab, sc.fsys, spec_bases(spec)[0])
+                if want != results[-1]:
+                    failures += 1
+                    twice = dups(results[-1])
+                    cap.fail('find_from_filter%s returned %r, the documented rules select %r%s (patterns %r)' % (
+                        ' (cache hit)' if hit else '', results[-1][:6], want[:6],
+                        '; returned more than once: %r' % (twice[:4],) if twice else '', [i[0] for i in spec['include']]),
+                        {'kind': 'cache', 'what': 'find_from_filter', 'spec': spec, 'fsys': sc.fsys, 'cache_hit': hit,
+                         'found': results[-1], 'want': want, 'returned_twice': twice}, classes=())
                 # direct oracle on the implementation: everything found (and every extra) is in the dist
                 if dist:
                     want = [p for p, m in _find_files(sc.env, ff) if m.name in ('include', 'not_now')
@@ -730,7 +942,7 @@ def stage_session(rep, rng, ntrees, ncalls, recorded=()):
                     missing = [canon_path(p) for p in want if p not in build._sources]
                     if missing:
                         failures += 1
-                        rep.fail('find_from_filter(dist=True%s) did not register %r for the source distribution' % (
+                        cap.fail('find_from_filter(dist=True%s) did not register %r for the source distribution' % (
                             ', cache hit' if hit else '', missing[:5]),
                             {'kind': 'dist', 'spec': spec, 'fsys': sc.fsys, 'cache_hit': hit, 'missing': missing},
                             classes=())
@@ -738,7 +950,7 @@ def stage_session(rep, rng, ntrees, ncalls, recorded=()):
                     fresh = [canon_path(p) for p, m in _find_files(sc.env, ff) if m.name == 'include']
                     if fresh != results[-1]:
                         failures += 1
-                        rep.fail('find_from_filter%s returned %r, an uncached search gives %r' % (
+                        cap.fail('find_from_filter%s returned %r, an uncached search gives %r' % (
                             ' (cache hit)' if hit else '', results[-1][:5], fresh[:5]),
                             {'kind': 'cache', 'spec': spec, 'fsys': sc.fsys, 'cache_hit': hit}, classes=())
             calls.append(('find.session', [True, sc.mfsys, mcalls]))
@@ -872,11 +1084,13 @@ def run(rep):
     dis = stage_w_nameglob(rep, rng, n // 2)
     report_dis(rep, dis, 0)
     recorded = [c for c in load_corpus() if c.get('kind') == 'find']
-    dis, found = stage_walk(rep, rng, 150 if thorough else 25, 12 if thorough else 10, recorded)
+    families = [gen_family_job(rng, rep) for _ in range(80 if thorough else 12)]
+    dis, found = stage_walk(rep, rng, 150 if thorough else 25, 12 if thorough else 10, recorded + families)
     if dis and not found:
-        found = stage_walk(rep, random.Random(rep.seed + 1), 250, 12)[1]
+        rng2 = random.Random(rep.seed + 1)
+        found = stage_walk(rep, rng2, 250, 12, [gen_family_job(rng2) for _ in range(120)])[1]
     report_dis(rep, dis, found)
-    dis, found = stage_session(rep, rng, 100 if thorough else 15, 8)
+    dis, found = stage_session(rep, rng, 100 if thorough else 15, 8, recorded + families[:30 if thorough else 6])
     report_dis(rep, dis, found)
     if not swept:
         dis, found = stage_sweep(rep, 4 if thorough else 3, 4)
